@@ -102,6 +102,11 @@ type VerifServerScript struct {
 	// inside processClientHello do not pass through it.
 	MutateHandshakeMsg func(typ uint8, plaintext []byte) []byte
 
+	// OnClientHello, if set, is called with the raw first ClientHello handshake message before
+	// any decision is taken; it may fill in the other fields of the script (e.g. pick a value
+	// from the complement of what this very hello offers - GREASE values differ per connection).
+	OnClientHello func(raw []byte)
+
 	// ---- observations (filled in by the server) ----
 	Trace VerifServerTrace
 }
@@ -170,6 +175,9 @@ func (v *verifServer) handshake(ctx context.Context) (err error) {
 	}
 	s.Trace.ClientHellos = append(s.Trace.ClientHellos, append([]byte(nil), ch.original...))
 	c.ticketKeys = c.config.ticketKeys(nil)
+	if s.OnClientHello != nil {
+		s.OnClientHello(s.Trace.ClientHellos[0])
+	}
 
 	// version selection (handshake_server.go:170-181, scripted)
 	switch {
@@ -455,6 +463,11 @@ func (v *verifServer) handshake13(ch *clientHelloMsg) error {
 			return unexpectedMessageError(ee, msg)
 		}
 		s.Trace.ClientEE = append([]byte(nil), ee.raw...)
+		if !hs.requestClientCert() {
+			if err := hs.sendSessionTickets(); err != nil {
+				return err
+			}
+		}
 	}
 	if err := hs.readClientCertificate(); err != nil {
 		return err
